@@ -246,6 +246,23 @@ class Outcome:
         return code
 
 
+F17_TEXT = ("a build never terminates: an explicit redirect to a specifier that the loader answers under another final specifier, "
+            "imported again from that module (load() follows one redirect level only); the as-coded model diverges on the same world")
+
+
+def absorb_replay_mismatch(outcome, prop, m, case):
+    """Route one replay-core mismatch. Divergence that the as-coded model predicts is finding F17."""
+    if m["what"] in ("diverges-as-modelled", "diverges-secondary-build"):
+        if "F17" in open_ids(prop):
+            outcome.known.setdefault("F17", F17_TEXT)
+        else:
+            outcome.violation(f"{m['what']} (finding F17 is not open) case {m['case']} kind {m['kind']}",
+                              dict(property=prop, source="replay-core", mismatch=m, case=case))
+        return
+    outcome.violation(f"{m['what']} {m.get('path', '')} case {m['case']} kind {m['kind']}",
+                      dict(property=prop, source="replay-core", mismatch=m, case=case))
+
+
 def absorb_trace(outcome, merged, prop, trace_lines, case_of_line, known_text):
     """Route MISMATCH/KNOWN/DRIFT lines of one property into the outcome."""
     allowed = open_ids(prop)
